@@ -49,6 +49,7 @@ type depRun struct {
 	injects  absint.Value
 	propTok  *absint.Tok
 	panicMsg string
+	nothing  bool // the registry answered that nothing qualifies
 }
 
 // depProcessorTable interprets one dependency processor's PostProcessProperties on every (tag, tag value, field shape,
@@ -223,6 +224,11 @@ func depProcessorTable(c *core.Ctx, p *procInfo) (rs rows, runs int, ownTags map
 								}
 							}
 							run.queries = append(run.queries, strings.Join(s, " & "))
+							// (for a point processed alone also: nothing qualifies - the answer is final, no other query follows)
+							if !withFirst && !sameType && ip.Choose(2, "nothing qualifies") == 1 {
+								run.nothing = true
+								return &absint.List{Elems: nil}
+							}
 							return &absint.List{Elems: []absint.Value{absint.NewTok("C1", "cand"), absint.NewTok("C2", "cand")}}
 						}
 						t.invoke[ro.DRGetMetaByName] = func(ip *absint.Interp, a []absint.Value) absint.Value {
@@ -277,6 +283,15 @@ func depProcessorTable(c *core.Ctx, p *procInfo) (rs rows, runs int, ownTags map
 							rs.hit("independent")
 							if alone, ok := single[key]; !ok || alone != sig {
 								rs.fail("independent", fmt.Sprintf("tag=%s value=%q field=%s returns=%d: processed alone: %s; after another pointer point of the same tag (names a missing component: %v): %s", tag, tagVal, sh.name, returns, alone, firstNamedMissing, sig))
+							}
+							return
+						}
+						if run.nothing {
+							// nothing qualified: exactly the one query was made and the point holds no candidate
+							injE, _ := run.propTok.Fields["Injects"].(*absint.List)
+							rs.hit("no-error")
+							if out.Panic != nil || len(run.queries) != 1 || len(run.byName) != 0 || (injE != nil && len(injE.Elems) != 0) {
+								rs.fail("no-error", fmt.Sprintf("tag=%s value=%q field=%s: the registry answered that nothing qualifies; queries=%v injects=%s => %s (want the one query and no candidate)", tag, tagVal, sh.name, run.queries, absint.Show(run.propTok.Fields["Injects"]), showOutcome(out)))
 							}
 							return
 						}
